@@ -211,7 +211,9 @@ def run_verus_unit(u, scratch, tier, extra_flags=()):
         vname = _verus_fn_lookup(funcs, fn)
         fb = funcs.get(vname) if vname else None
         secs = (fb.get("time-micros", 0) / 1e6) if fb else None
-        body_failed = any(f["fn"] == fn and not f["labels"] for f in res["failures"])
+        own_labels = {c["label"] for c in by_fn_clauses.get(fn, []) if c["label"]}
+        body_failed = any(f["fn"] == fn and (not f["labels"] or not set(f["labels"]) <= own_labels)
+                          for f in res["failures"])
         res["obligations"].append(dict(
             name=f"{u['name']}::{fn}::body(safety+callee-preconditions)", props=props, src=srcloc,
             status="failed" if body_failed else "discharged", backend="z3-via-verus", seconds=secs))
@@ -238,6 +240,37 @@ def run_verus_unit(u, scratch, tier, extra_flags=()):
             res["obligations"].append(dict(
                 name=f"{u['name']}::lemma:{short}", props=unit_props, status="failed" if failed else "discharged",
                 backend="z3-via-verus", seconds=v.get("time-micros", 0) / 1e6, kind=v.get("mode:")))
+    # call-site census (unit header `callsites:`): the number of textual call sites of the listed functions
+    # is part of the contract (a new caller would bypass the call-site obligations)
+    cs = u["header"].get("callsites")
+    if cs:
+        import rustlex
+        for item in cs.split():
+            m = re.match(r"^(.+?):(.+)=(\d+)$", item)
+            if not m:
+                continue
+            rel, pat, want = m.group(1), m.group(2), int(m.group(3))
+            try:
+                txt = open(os.path.join(REPO, rel)).read()
+                # ignore test modules: cut at `#[cfg(test)]`
+                cut = txt.find("#[cfg(test)]")
+                if cut >= 0:
+                    txt = txt[:cut]
+                toks = [t.text for t in rustlex.lex(txt) if t.kind not in (rustlex.WS, rustlex.COMMENT)]
+                pt = [t.text for t in rustlex.lex(pat) if t.kind not in (rustlex.WS, rustlex.COMMENT)]
+                n = sum(1 for i in range(len(toks) - len(pt) + 1) if toks[i:i + len(pt)] == pt)
+            except OSError as e:
+                res["infra"] = f"callsite census: {e}"
+                continue
+            name = f"{u['name']}::callsites::{rel}:{pat}"
+            ok = (n == want)
+            res["obligations"].append(dict(name=name, props=unit_props, status="discharged" if ok else "failed",
+                                           backend="extractor (token census)", seconds=0.0, kind="census",
+                                           text=f"{pat} occurs {want} time(s) in {rel}"))
+            if not ok:
+                res["failures"].append(dict(obligation=name, labels=[], owners=list(unit_props), fn="callsites", src=rel,
+                                            message=f"call-site census: `{pat}` occurs {n} time(s) in {rel}, contract covers {want}",
+                                            clause=f"{pat} x{want}", rendered=""))
     if not res["infra"] and vr.get("errors", 0) > 0 and not res["failures"]:
         res["infra"] = f"verus reported {vr.get('errors')} error(s) in unit {u['name']} but no diagnostic could be attributed"
     return res
